@@ -32,7 +32,7 @@ var Check = &vrt.Check{
 		"(capped at 4096 signatures per batch, so the number is an under-count)",
 	Assumptions: []string{
 		"an input of exactly 0.0 may print any hemisphere letter or a blank (the repository's TestDecToDM pins the blank)",
-		"inputs whose magnitude rounds to 00.0000 minutes of degree 0 may print either hemisphere letter",
+		"non-zero inputs whose magnitude rounds to 00.0000 minutes of degree 0 may print either hemisphere letter, but must print one",
 		"latitude and longitude are set both-or-neither (a position needs both)",
 	},
 	Plan:          plan,
@@ -164,9 +164,15 @@ func checkCoord(o *vrt.Obs, which string, in float64, printed string) {
 	}
 	roundsToZero := totalMin == 0
 	switch {
-	case in == 0 || roundsToZero:
+	case in == 0:
 		if h != pos && h != neg && h != ' ' {
 			o.Violate("hemisphere:"+which, "%s %.12g printed as %q: bad hemisphere character", which, in, printed)
+		}
+	case roundsToZero:
+		// a non-zero input whose digits round to zero: either letter names the same place, but the line
+		// must carry a hemisphere letter (the blank is tolerated for an input of exactly 0.0 only)
+		if h != pos && h != neg {
+			o.Violate("hemisphere:"+which, "%s %.12g printed as %q: no hemisphere letter for a non-zero input", which, in, printed)
 		}
 	case in > 0 && h != pos, in < 0 && h != neg:
 		o.Violate("hemisphere:"+which, "%s %.12g printed as %q: wrong hemisphere letter", which, in, printed)
